@@ -20,7 +20,11 @@ pub struct C10Checker {
 fn has_separator_number(src: &str) -> bool {
     static RE: OnceLock<Regex> = OnceLock::new();
     let re = RE.get_or_init(|| Regex::new("[0-9][.,' \u{a0}\u{202f}]|[.,][0-9]").unwrap());
-    re.is_match(src)
+    // canonicalization also merges digits and separators that are adjacent tokens (<mn>0</mn><mo>.</mo><mn>5</mn>):
+    // look at the text with the tags removed as well
+    static TAGS: OnceLock<Regex> = OnceLock::new();
+    let tags = TAGS.get_or_init(|| Regex::new("<[^>]*>").unwrap());
+    re.is_match(src) || re.is_match(&tags.replace_all(src, ""))
 }
 
 const SEP_PREFS: &[&str] = &["Language", "LanguageAuto", "DecimalSeparator", "DecimalSeparators", "BlockSeparators"];
@@ -111,7 +115,7 @@ impl C10Checker {
                     "history-dependent-output",
                     sig,
                     group,
-                    format!("expression: {}\nsession: {}\nfresh session: {}\npreferences given to the fresh session: {:?}\nreference set-up errors: {:?}", first_line(&src, 200), got.short(), exp.short(), prefs, r.setup_errors),
+                    format!("expression: {}\nsession: {}\nfresh session: {}\npreferences given to the fresh session: {:?}\nreference set-up errors: {:?}", first_line(&src, 200), got.short(), exp.short(), r.applied, r.setup_errors),
                 );
                 return;
             }
